@@ -10,7 +10,7 @@ D4 stamps: every non-registration datagram refreshes last_received; the delivery
 D5 processing an arbitrary datagram never panics (E5).
 """
 from ..ctx import is_awaited_result_of, CONN, is_call, is_field, is_iter_next, result_arms, sname
-from ..expr import show, walk
+from ..expr import show, strip_old, walk
 from ..pathcond import PathA, calls_to, field_stores
 
 LEVEL = "other"
@@ -245,7 +245,36 @@ def d4_stamps(ctx, rule="D4"):
             ctx.chk.ob(rule, "no other site stamps delivery proof", False, g.stable, key="%s:proof-other-writer:%s" % (rule, g.stable), loc=a.loc)
 
 
-RULES = [d1_exact_dispatch, d2_identity, d3_delivery, d4_stamps]
+def d3b_every_dequeued_datagram_is_processed(ctx):
+    """At least once: a datagram taken out of the reader queue is handed to handle_uplink_packet on every path (a budget / shutdown
+    test must come before the dequeue, not after it)."""
+    HU = "srtla_send::sender::packet_handler::handle_uplink_packet"
+    n = 0
+    for f in ctx.w.fns.values():
+        if "::tests" in f.stable or f.crate not in ctx.w.local_crates:
+            continue
+        recvs = [(bb, t) for (bb, t) in f.calls() if "UnboundedReceiver::<T>::try_recv" in t["f"].get("path", "") and "UplinkPacket" in " ".join(t["f"].get("substs", []) + [t.get("dty", "") or ""])]
+        if not recvs:
+            continue
+        fa = ctx.fa(f)
+        cfg = ctx.cfg(f)
+        hs = set(bb for (bb, t) in calls_to(f, stable=HU))
+        for (rb, rt) in recvs:
+            n += 1
+            arms = [a for (sb, a) in result_arms(f, fa, lambda e: is_call(strip_old(e), name_contains="try_recv")) if "Ok" in a]
+            ok = len(arms) >= 1 and bool(hs)
+            det = ""
+            if ok:
+                okb = arms[0]["Ok"]
+                lost = cfg.can_reach(okb, rb, avoid=hs) or [r for r in cfg.returns if cfg.can_reach(okb, r, avoid=hs)]
+                ok = not lost
+                det = "" if ok else "a dequeued datagram can reach the next dequeue / the return without being handled"
+            ctx.chk.ob("D3", "%s: every datagram taken from the reader queue is handed to handle_uplink_packet" % sname(f.stable), ok, det,
+                       key="D3:dequeued-is-processed:%s" % f.stable, loc=rt.get("loc"))
+    ctx.chk.floor("D3", "try_recv sites on the uplink packet queue", n, 1)
+
+
+RULES = [d1_exact_dispatch, d2_identity, d3_delivery, d3b_every_dequeued_datagram_is_processed, d4_stamps]
 
 
 def run(ctx):
